@@ -107,7 +107,7 @@ PROPS["C11"] = dict(
                 "exactly (sauce_cut), never more than the input, for every input.",
 )
 PROPS["C02"] = dict(
-    units=["sauce", "xbin_load"],
+    units=["sauce", "xbin_load", "fonts"],
     trusted_base=LOADER_TRUST,
     unverified_remainder=["IcyDraw load_buffer (PNG decoder callbacks, zTXt, base64)", "Palette::load_palette (regex)",
                           "text formats load through parse_with_parser -> an emulation on a non-terminal buffer (C01's unit covers terminal buffers)"],
@@ -202,4 +202,21 @@ PROPS["C05"] = dict(
     explanation="XBin::load_buffer is proved total on every byte string up to 16 MiB and to return the header's width, a height equal to the header's for pictures of at most 25 rows "
                 "(the defect found), the ice flag of the header; the image readers place dec_cell of every (character, attribute) pair at its row-major position; "
                 "TextAttribute::from_u8 equals its specification and Kani proves as_u8(from_u8(b, m), m) == b for every byte and mode (loop-free, complete).",
+)
+
+
+PROPS["C17"] = dict(
+    units=["fonts"],
+    trusted_base=COMMON_TRUST + [
+        "S7: char obeys the hash-table key model (vstd assumes the same for the integer key types); std HashMap through vstd's specification",
+        "S8: u32/u16 from_le_bytes / to_le_bytes are little-endian (O1 stubs vx_u32_le, vx_u16_le, vx_push_u32_le)",
+        "O1: `char::from_u32(i).and_then(|c| self.get_glyph(c))` is replaced by vx_glyph_at with the composed contract of char::from_u32 (S2) and HashMap::get",
+        "BitFont::calculate_checksum is an assumed-frame function (changes only `checksum`)",
+    ],
+    unverified_remainder=["DCS font loading (base64), fonts embedded in XBin/ADF/IDF/IcyDraw files beyond the raw 8-bit block codec proved here, PSF1 512-glyph tables",
+                          "TheDraw fonts (TDF): as_tdf_bytes / from_tdf_bytes are NOT under contract - that half of C17 is not decided",
+                          "built-in font pages are include_bytes! data: their content is not read by the verifier"],
+    explanation="glyphs_from_u8_data is proved to build exactly the table {code i -> rows [i*h, i*h+h)} for every complete glyph below 0xD800 (and to terminate, h = 0 included); "
+                "convert_to_u8_data to emit those rows back in code order; create_8 / from_basic / load_plain_font / load_psf1 / load_psf2 / from_bytes to be total and to decode "
+                "the header fields; to_psf2_bytes to write header and glyph block; lemma_raw_roundtrip and lemma_psf2_roundtrip compose the contracts into the bit-exact round trips of C17.",
 )
